@@ -333,7 +333,7 @@ def error_tables(ctx, prog, F):
         b = ctx.anchor(prog, EP + fn)
         if b is None:
             continue
-        paths = sym.paths_of(b, prog)
+        paths = sym.paths_of(b, prog, inline={EP + "new", EP + "other_error"} - {EP + fn})   # one constructor may be written via the other
         ok = len(paths) == 1 and paths[0].kind == "return"
         if ok:
             v = paths[0].value
